@@ -224,6 +224,19 @@ def _packus(it, key, a, ce):
     return join(out)
 
 
+@x86("_mm_packs_epi16")
+def _packs(it, key, a, ce):
+    out = []
+    for src in (a[0], a[1]):
+        for l in lanes(src, 16):
+            if bv.const_value(l[8:]) == 0:
+                # 0..255 as signed 16-bit: values >= 128 saturate to 0x7f
+                out.append(bv.ite(l[7], bv.const(0x7f, 8), l[:8]))
+            else:
+                out.append(bv.ufn("packs16", (l,), 8))
+    return join(out)
+
+
 @x86("_mm_set1_epi8", "_mm256_set1_epi8")
 def _set1_8(it, key, a, ce):
     n = 32 if "256" in key else 16
